@@ -219,29 +219,80 @@ func (w *wctx) leafValue(t *tree) (goja.Value, bool) {
 	panic("c06: unknown leaf form " + t.form)
 }
 
-// applyOp runs one operation on already evaluated operands on both sides.
+// applyReal runs the real side of one operation on already evaluated operands. The result is NOT observed.
+func (w *wctx) applyReal(o *op, real []goja.Value, model []S) (v goja.Value, rk Kind, rerr string) {
+	if o.goFn != nil {
+		v, rk = o.goFn(w, real, model)
+		return
+	}
+	v, err := w.fns[o.id](goja.Undefined(), real...)
+	if err != nil {
+		return nil, strmodel.Throws, errName(err)
+	}
+	if v == nil || goja.IsUndefined(v) {
+		return v, strmodel.Undefined, ""
+	}
+	if _, ok := v.(goja.String); !ok {
+		return v, kindOther, ""
+	}
+	return v, strmodel.String, ""
+}
+
+// applyOp runs one operation on already evaluated operands on both sides and observes the real result.
 func (w *wctx) applyOp(o *op, real []goja.Value, model []S) (res evalRes) {
 	res.model, res.mk = o.model(model)
 	if res.mk == strmodel.Excluded {
 		return
 	}
-	var v goja.Value
-	if o.goFn != nil {
-		v, res.rk = o.goFn(w, real, model)
-		if res.rk != strmodel.String {
-			return
-		}
-	} else {
-		var err error
-		v, err = w.fns[o.id](goja.Undefined(), real...)
-		if err != nil {
-			res.rk = strmodel.Throws
-			res.rerr = errName(err)
-			return
-		}
+	v, rk, rerr := w.applyReal(o, real, model)
+	res.rk, res.rerr = rk, rerr
+	if rk == strmodel.String || rk == strmodel.Undefined || rk == kindOther {
+		w.classify(v, &res)
 	}
-	w.classify(v, &res)
 	return
+}
+
+// modelOf evaluates the model side of a whole tree.
+func modelOf(t *tree) (S, Kind) {
+	if t.op == nil {
+		return leaves[t.leaf].units, strmodel.String
+	}
+	args := make([]S, len(t.args))
+	for i, a := range t.args {
+		m, k := modelOf(a)
+		if k != strmodel.String {
+			return nil, k
+		}
+		args[i] = m
+	}
+	return t.op.model(args)
+}
+
+// pure evaluates the real side of a whole tree on fresh values WITHOUT observing any intermediate or final
+// value (reading the code units of a lazily scanned imported string changes it). ok=false: not evaluable.
+func (w *wctx) pure(t *tree) (v goja.Value, rk Kind, rerr string, ok bool) {
+	if t.op == nil {
+		v, ok = w.leafValue(t)
+		return v, strmodel.String, "", ok
+	}
+	real := make([]goja.Value, len(t.args))
+	model := make([]S, len(t.args))
+	for i, a := range t.args {
+		m, mk := modelOf(a)
+		if mk != strmodel.String {
+			return nil, mk, "", false
+		}
+		cv, ck, _, cok := w.pure(a)
+		if !cok || ck != strmodel.String {
+			return nil, ck, "", false
+		}
+		real[i], model[i] = cv, m
+	}
+	if _, mk := t.op.model(model); mk == strmodel.Excluded {
+		return nil, mk, "", false
+	}
+	v, rk, rerr = w.applyReal(t.op, real, model)
+	return v, rk, rerr, true
 }
 
 func errName(err error) string {
@@ -371,23 +422,11 @@ func describeReal(res *evalRes) string {
 	return fmt.Sprintf("non-string %v", res.real)
 }
 
-// evalTree evaluates a whole tree on fresh values, judging every node; the first (innermost) failure is
-// returned. ok=false without a failure means the tree is not evaluable (excluded / non-string sub-result).
+// evalTree judges every node of a tree: each subtree is evaluated from scratch on fresh values (pure) and
+// only its final value is observed, so no node ever sees an operand that was already looked at. The first
+// (innermost) failure is returned. ok=false without a failure means the tree is not evaluable (excluded /
+// non-string sub-result).
 func (w *wctx) evalTree(t *tree) (res evalRes, f *fail, ok bool) {
-	if t.op == nil {
-		v, valid := w.leafValue(t)
-		if !valid {
-			return res, nil, false
-		}
-		res.model, res.mk = leaves[t.leaf].units, strmodel.String
-		w.classify(v, &res)
-		if f := judge(nil, "leaf "+t.form, "leaf:"+t.form, []S{res.model}, &res); f != nil {
-			f.node = t
-			return res, f, false
-		}
-		return res, nil, true
-	}
-	real := make([]goja.Value, len(t.args))
 	model := make([]S, len(t.args))
 	for i, a := range t.args {
 		r, f, ok := w.evalTree(a)
@@ -397,10 +436,30 @@ func (w *wctx) evalTree(t *tree) (res evalRes, f *fail, ok bool) {
 		if r.rk != strmodel.String {
 			return r, nil, false
 		}
-		real[i], model[i] = r.real, r.model
+		model[i] = r.model
 	}
-	res = w.applyOp(t.op, real, model)
-	if f := judge(t.op, t.op.name, t.op.class, model, &res); f != nil {
+	if t.op == nil {
+		res.model, res.mk = leaves[t.leaf].units, strmodel.String
+		model = []S{res.model}
+	} else {
+		res.model, res.mk = t.op.model(model)
+		if res.mk == strmodel.Excluded {
+			return res, nil, false
+		}
+	}
+	v, rk, rerr, valid := w.pure(t)
+	if !valid {
+		return res, nil, false
+	}
+	res.rk, res.rerr = rk, rerr
+	if rk != strmodel.Throws {
+		w.classify(v, &res)
+	}
+	name, class := "leaf "+t.form, "leaf:"+t.form
+	if t.op != nil {
+		name, class = t.op.name, t.op.class
+	}
+	if f := judge(t.op, name, class, model, &res); f != nil {
 		f.node = t
 		return res, f, false
 	}
